@@ -12,5 +12,6 @@ import (
 	_ "verif/props/c09"
 	_ "verif/props/c10"
 	_ "verif/props/c19"
+	_ "verif/props/c20"
 	_ "verif/props/smoke"
 )
